@@ -48,6 +48,14 @@ func (e *eng) Exec(op []string) string {
 			fmt.Fprintf(&sb, " %d", n)
 		}
 		return sb.String()
+	case "nacksfinal": // waits until the NACK stream is quiet
+		ns := e.v.NacksStable(time.Duration(a(1))*time.Millisecond, 150*time.Millisecond)
+		var sb strings.Builder
+		sb.WriteString(fmt.Sprint(len(ns)))
+		for _, n := range ns {
+			fmt.Fprintf(&sb, " %d", n)
+		}
+		return sb.String()
 	case "getpacket":
 		return fmt.Sprint(e.v.GetPacket(uint16(a(1))))
 	case "stats":
@@ -113,7 +121,7 @@ func gen(t *common.Trace, e common.Engine, r *common.Rng, thorough bool) {
 				do("nacks 15")
 			}
 		}
-		do("nacks 60")
+		do("nacksfinal 60")
 		do("stats")
 		if r.Intn(2) == 0 {
 			// a subscriber's NACK for packets the cache no longer / not yet holds (nackWriter path)
@@ -131,7 +139,7 @@ func gen(t *common.Trace, e common.Engine, r *common.Rng, thorough bool) {
 			}
 			t.Count(fmt.Sprintf("getpacket:%d", which))
 			do("getpacket %d", s)
-			do("nacks 120")
+			do("nacksfinal 120")
 		}
 	}
 	e.Reset()
